@@ -795,6 +795,19 @@ def line_comment_trailing_blanks(prog, rep, R):
               where="%s:%d" % (b.file, b.line), instance={"paths": n, "end_trimmers": sorted(x.split("::")[-1] for x in trimmer_callees), "texts_reaching_the_end": sorted(reaches_end), "violating": [x[0] + ": " + "; ".join(x[1]) for x in bad[:3]]})
 
 
+def _origin_is_bool(b, x):
+    """an origin (of a u16 value reached through From::from / a cast) that is a boolean: the converted value is 0 or 1"""
+    if x[0] == "const":
+        return x[1] == "bool"
+    if x[0] in ("unop", "binop") and len(x) >= 4 and isinstance(x[2], int):
+        st = b.blocks[x[2]]["stmts"][x[3]]
+        return st["k"] == "assign" and not st["dst"]["p"] and b.locals[st["dst"]["l"]]["ty"] == "bool"
+    if x[0] == "call" and isinstance(x[1], int):
+        t = b.blocks[x[1]]["term"]
+        return t.get("k") == "call" and t.get("dst_ty") == "bool"
+    return False
+
+
 def check_c08(prog, rep, tier, cfg):
     line_comment_trailing_blanks(prog, rep, "C08.d")
     # a gap nobody decides keeps the input's blank count: more than one space between two tokens on a line
@@ -885,6 +898,8 @@ def check_c08(prog, rep, tier, cfg):
                     if x[0] == "param":
                         param_fns.add((k, x[1]))
                         continue
+                    if _origin_is_bool(b, x):
+                        continue            # `u16::from(cond)` / `cond as u16`: 0 or 1
                     good = False
                 rep.check(good, R, "table-some:%s:%s" % (short(k), sorted(map(str, o))), "the spacing table can produce a space count other than 0, 1 or min(old,1) in %s: %s" % (short(k), sorted(map(str, o))),
                           where="%s:%d" % (b.file, abs(s.get("line", 0))), instance={"fn": short(k), "payload": sorted(str(x[2]) if x[0] == "const" else x[0] for x in o)})
@@ -1333,7 +1348,7 @@ def check_c10(prog, rep, tier, cfg):
 def rewrite_is_reported(prog, rep, R):
     """format_multiline_strings returns a flag that is false initially, is set to true on every path on which a token's text was replaced,
     and is never reset: otherwise a line whose string changed is not measured and wrapped again."""
-    b = prog.body(OLF + "multiline_strings::StringFormatter::format_multiline_strings")
+    b = prog.inlined(OLF + "multiline_strings::StringFormatter::format_multiline_strings", keep=("try_rewrite_string", "lines_custom", "get_token_mut", "get_token", "set_content", "get_content"))
     if not rep.check(b is not None, R, "anchor:format_multiline_strings", "format_multiline_strings not found"):
         return
     sc = b.calls_to("pasfmt_core::lang::Token::set_content")
@@ -1349,21 +1364,49 @@ def rewrite_is_reported(prog, rep, R):
     L = set().union(*loops.values()) if loops else set()
     stores = [d for d in b.defs.get(flag, []) if d[0] == "assign"]
     init = [d for d in stores if d[1] not in L]
-    inside = [d for d in stores if d[1] in L]
 
     def cval(d):
         rv = d[3]["rv"]
         return rv["op"].get("bool") if rv["k"] == "use" and rv["op"]["k"] == "const" else None
     ok_init = len(init) == 1 and cval(init[0]) is False
-    ok_sticky = bool(inside) and all(cval(d) is True for d in inside)
-    # every set_content is followed by a `flag = true` before the iteration ends
-    true_blocks = {d[1] for d in inside if cval(d) is True}
-    headers = set(loops)
-    ok_every = all(s.bb in true_blocks or not b.can_reach_avoiding(s.bb, headers | set(b.return_blocks()), true_blocks) for s in sc)
-    rep.check(ok_init and ok_sticky and ok_every, R, "rewrite-flag-is-sticky-and-complete",
-              "the flag returned by format_multiline_strings is not (false initially, set to true after every set_content, never reset): initial %s, stores in the loop %s, set after every rewrite: %s"
-              % ([cval(d) for d in init], [cval(d) for d in inside], ok_every), where="%s:%d" % (b.file, b.line),
-              instance={"flag": b.locals[flag].get("name"), "set_content_sites": len(sc), "stores_in_loop": len(inside)})
+    # transition of the flag over one iteration of the loop over the line's tokens, path by path: true after a path that replaced a
+    # token's text, unchanged (or true) otherwise — whatever the stores look like (`flag = true`, `flag |= helper(..)`, ..)
+    outer = [(h, Lp) for h, Lp in loops.items() if all(s2.bb in Lp for s2 in sc)]
+    if not rep.check(ok_init and len(outer) >= 1, R, "anchor:rewrite-loop", "the rewrite flag is not initialised to false once / set_content is not inside the loop over the tokens (initial %s)" % [cval(d) for d in init]):
+        return
+    h, Lp = max(outer, key=lambda x: len(x[1]))
+    nxt = [c for c in b.calls() if c.callee == "core::iter::traits::iterator::Iterator::next" and c.bb in Lp and b.dominates(c.bb, sc[0].bb)]
+    some = None
+    if nxt:
+        tt = b.blocks[nxt[0].t["target"]]["term"]
+        if tt["k"] == "switch":
+            some = ([tb_ for v, tb_ in tt["targets"] if v == 1] or [tt["otherwise"]])[0]
+    if not rep.check(some is not None, R, "anchor:rewrite-loop-step", "the step of the loop over the line's tokens could not be identified"):
+        return
+    try:
+        tb = Table(prog, b, start=some, stop={h}, state=[flag], inline=0)
+    except TooComplex as e:
+        rep.fail(R, "rewrite-flag-table", "one iteration of format_multiline_strings is not a loop-free classifier: %s" % e)
+        return
+    flagname = "var:" + (b.locals[flag].get("name") or "tmp")
+    bad = []
+    nre = 0
+    for (cons, res), calls in zip(tb.rows, tb.calls):
+        rewrote = any(n.endswith("Token::set_content") for n, _ in calls)
+        nre += 1 if rewrote else 0
+        if res.kind != "agg" or res.a[0] != "state":
+            if rewrote:
+                bad.append("returns from inside the loop after a rewrite")
+            continue
+        out = res.a[2][0]
+        after = out.a if out.kind == "const" else ("same" if out.kind == "place" and out.a == flagname else render(out))
+        if rewrote and after is not True:
+            bad.append("a path that replaces a token's text leaves the flag %s" % after)
+        if not rewrote and after not in (True, "same"):
+            bad.append("a path without a rewrite sets the flag to %s (a rewrite reported by an earlier token is lost)" % after)
+    rep.check(not bad and nre >= 1, R, "rewrite-flag-is-sticky-and-complete",
+              "the flag returned by format_multiline_strings is not (false initially, true after every iteration that replaced a token's text, never reset): %s" % bad[:3], where="%s:%d" % (b.file, b.line),
+              instance={"flag": b.locals[flag].get("name"), "paths_of_one_iteration": len(tb.rows), "paths_with_a_rewrite": nre})
 
 
 def check_c11(prog, rep, tier, cfg):
